@@ -17,4 +17,5 @@ INVARIANT OwnFractionOnly
 INVARIANT FPathLen
 INVARIANT EmitDone
 PROPERTY AppendOnly
+PROPERTY RefinesLaws
 CHECK_DEADLOCK FALSE
